@@ -720,6 +720,15 @@ func c19Token(c *Check) {
 			cl, ok := v.(*ssa.Call)
 			return ok && isJwtParse(cl)
 		}), p.Pos(r.Pos()), "the permissions returned are the Allow field decoded from the verified token's claims")
+		pooled := sl.HasCallTo(func(o *types.Func) bool {
+			return pkgPathOf(o) == "sync" && o.Name() == "Get" && recvNamed(o) != nil && recvNamed(o).Obj().Name() == "Pool"
+		})
+		global := sl.Has(func(v ssa.Value) bool {
+			g, ok := v.(*ssa.Global)
+			return ok && g.Pkg != nil && g.Pkg.Pkg.Path() == modPath+"/libs/authtoken"
+		})
+		c.Ob("R19.3a", "returned permissions are freshly allocated", !pooled && !global, p.Pos(r.Pos()),
+			"the returned permission slice does not alias pooled or package-level storage that a later verification could overwrite (the RPC server keeps it in the connection context)")
 	}
 	// R19.3b
 	noVerify := p.allCallSites(func(o *types.Func) bool {
